@@ -1,5 +1,6 @@
 import Dalek.Proofs.Field26
 import Dalek.Proofs.Field51
+import Dalek.IR.LimbSound
 /-! Lane-level value semantics of the AVX2 vector field backend (`backend/vector/avx2/field.rs`) and the proof
 macro used for the functional-correctness lemmas of `Dalek/Proofs/Avx2Field/*`.
 
@@ -65,6 +66,118 @@ elab "subst_list_eqs" : tactic => withMainContext do
   for n in names do
     evalTactic (← `(tactic| subst $(mkIdent n)))
 
+/-- `0 ≤ x_i ≤ b_i` point-wise (the integer image of an interval contract; used by the few kernels whose
+normal form is value-preserving only inside the contract, see `zero_quots`) -/
+def Bounded : List Int → List Nat → Prop
+  | [], [] => True
+  | x :: xs, b :: bs => (0 ≤ x ∧ x ≤ (b : Int)) ∧ Bounded xs bs
+  | _, _ => False
+
+/-- the forty lanes of `(16p, 16p, 16p, 16p)` (constants regenerated from `avx2/constants.rs`) -/
+def p16Lanes : List Nat :=
+  Dalek.Gen.Consts.Avx2.P_TIMES_16_LO ++ Dalek.Gen.Consts.Avx2.P_TIMES_16_HI ++ Dalek.Gen.Consts.Avx2.P_TIMES_16_HI
+    ++ Dalek.Gen.Consts.Avx2.P_TIMES_16_HI ++ Dalek.Gen.Consts.Avx2.P_TIMES_16_HI
+
+theorem bounded_of_envIn : ∀ {xs : List Nat} {pre : List Dalek.IR.Itv}, Dalek.IR.EnvIn xs pre →
+    Bounded (Dalek.IR.toZ xs) (pre.map (·.hi))
+  | [], [], _ => trivial
+  | x :: xs, t :: ts, h => by
+      refine ⟨⟨Int.natCast_nonneg x, ?_⟩, bounded_of_envIn h.2⟩
+      exact Int.ofNat_le.mpr h.1.2.1
+  | [], _ :: _, h => h.elim
+  | _ :: _, [], h => h.elim
+
+open Lean Elab Tactic Meta in
+/-- keep only those `hL_i : x = rhs` on which the goal (transitively) depends -/
+elab "slice_hyps" : tactic => withMainContext do
+  let g ← getMainGoal
+  let lctx ← getLCtx
+  let mut hyps : Array (FVarId × FVarId × Expr) := #[]
+  for d in lctx do
+    if d.isImplementationDetail then continue
+    if d.userName.toString.startsWith "hL_" then
+      let t ← instantiateMVars d.type
+      if let some (_, lhs, rhs) := t.eq? then
+        if lhs.isFVar then hyps := hyps.push (d.fvarId, lhs.fvarId!, rhs)
+  let tgt ← instantiateMVars (← g.getType)
+  let mut needed : Std.HashSet FVarId := {}
+  for fv in (collectFVars {} tgt).fvarIds do needed := needed.insert fv
+  let mut marked : Std.HashSet FVarId := {}
+  let mut changed := true
+  while changed do
+    changed := false
+    for (h, x, rhs) in hyps do
+      if needed.contains x && !marked.contains h then
+        marked := marked.insert h
+        changed := true
+        for fv in (collectFVars {} rhs).fvarIds do needed := needed.insert fv
+  let mut g' := g
+  for (h, _, _) in hyps.reverse do
+    if !marked.contains h then
+      g' ← g'.clear h
+  replaceMainGoal [g']
+
+open Lean in
+/-- all quotients and all remainders occurring in an expression -/
+partial def collectDivMod (e : Expr) : StateM (Array Expr × Array Expr) Unit := do
+  match e.getAppFnArgs with
+  | (``HDiv.hDiv, #[_, _, _, _, a, b]) =>
+      modify (fun (d, m) => (d.push e, m)); collectDivMod a; collectDivMod b
+  | (``HMod.hMod, #[_, _, _, _, a, b]) =>
+      modify (fun (d, m) => (d, m.push e)); collectDivMod a; collectDivMod b
+  | _ => for arg in e.getAppArgs do collectDivMod arg
+
+open Lean Elab Tactic Meta in
+/-- The normaliser drops a mask `t & (2^k-1)` when the interval analysis shows `t < 2^k`, but keeps the matching
+`t >> k`; it also keeps the high 32 bits of a 64-bit lane product that a 32-bit shuffle moves into a neighbouring
+lane.  Such a quotient `t / m`, whose remainder `t % m` is used nowhere, can only occur in a value-preserving
+computation if it vanishes.  For each of them: prove `t / m = 0` by `omega` from the input bounds in the context and
+rewrite with it (quotients for which this fails are left alone; the final `ring_nf` then fails). -/
+elab "zero_quots" : tactic => do
+  let mut failed : Array Expr := #[]
+  let mut progress := true
+  while progress do
+    progress := false
+    let cands ← withMainContext do
+      let lctx ← getLCtx
+      let mut st : Array Expr × Array Expr := (#[], #[])
+      for d in lctx do
+        if d.isImplementationDetail then continue
+        if d.userName.toString.startsWith "hL_" then
+          let t ← instantiateMVars d.type
+          st := ((collectDivMod t).run st).2
+      let (divs, mods) := st
+      let mut cs : Array Expr := #[]
+      for q in divs do
+        let a := q.getAppArgs[4]!; let b := q.getAppArgs[5]!
+        if !(mods.any fun m => m.getAppArgs[4]! == a && m.getAppArgs[5]! == b) && !cs.contains q then
+          cs := cs.push q
+      pure cs
+    for q in cands do
+      if failed.contains q then continue
+      let ok ← withMainContext do
+        let stx ← Term.exprToSyntax q
+        try
+          evalTactic (← `(tactic| (have hq : $stx = 0 := by omega)))
+          evalTactic (← `(tactic| (simp only [hq, add_zero, zero_add] at *)))
+          evalTactic (← `(tactic| (try clear hq)))
+          pure true
+        catch _ => pure false
+      if ok then
+        progress := true
+        break
+      else failed := failed.push q
+
+/-- unfold the lane-value notions in the goal down to the SSA variables -/
+macro "avx_goal" : tactic =>
+  `(tactic| simp only [laneVal, laneVal64, val51, lane, lane64, elem51, Lane.off, Lane.idx, Lane.sel,
+               Nat.reduceAdd, Nat.reduceMul, List.getD_cons_zero, List.getD_cons_succ])
+
+/-- `avx_lets_int f`: unfold the shallow kernel `f` and turn its SSA lets into equations over `ℤ` -/
+macro "avx_lets_int " f:ident : tactic =>
+  `(tactic| (limb_lets $f; subst_list_eqs))
+
+
 /-- `avx_lets f`: unfold the shallow kernel `f`, turn its SSA lets into equations, cast them to `ZMod P` -/
 macro "avx_lets " f:ident : tactic =>
   `(tactic| (limb_lets $f; subst_list_eqs; cast_eqs (ZMod P)))
@@ -80,5 +193,9 @@ macro "avx_finish" : tactic =>
              simp only [*]
              ring_nf
              try reduce_mod_char))
+
+/-- lane identity inside the contract: slice, discharge the vanishing quotients, cast, normalise -/
+macro "avx_finish_bounded" : tactic =>
+  `(tactic| (avx_goal; slice_hyps; zero_quots; cast_eqs (ZMod P); avx_finish))
 
 end Dalek.Proofs.Avx2Field
